@@ -109,6 +109,7 @@ class NodeWorld:
             if key in ncfg:
                 setattr(node, attr, ncfg[key])
         self.node = node
+        self.world.probe = lambda: bool(getattr(node, "_stopping", False))
         self.peers = []
         for pc in cfg.get("peers", []):
             uri = f"aaa://{pc['name']}"
